@@ -32,6 +32,7 @@ from lark import (
     UnexpectedEOF,
     ParseTree,
 )
+from lark.exceptions import VisitError
 
 from .types import Nil
 
@@ -430,12 +431,15 @@ class FcpV2Transformer(Transformer):
                 Token(MetaData(line, line, column, column, 0, 0, str(filename))),
             )
 
-        fcp = FcpV2Transformer(
-            pathlib.Path(filename).resolve(),
-            self.parser_context,
-            self.filesystem_proxy,
-            self.error_logger,
-        ).transform(fcp_ast)
+        try:
+            fcp = FcpV2Transformer(
+                pathlib.Path(filename).resolve(),
+                self.parser_context,
+                self.filesystem_proxy,
+                self.error_logger,
+            ).transform(fcp_ast)
+        except VisitError as e:
+            return error(f"Invalid {e.rule} in {filename.name}: {e.orig_exc}")
 
         self.fcp.merge(
             fcp.map_err(
@@ -578,9 +582,12 @@ def _get_fcp(
 
     parser_context = ParserContext()
 
-    fcp = FcpV2Transformer(
-        filename, parser_context, filesystem_proxy, logger
-    ).transform(fcp_ast)
+    try:
+        fcp = FcpV2Transformer(
+            filename, parser_context, filesystem_proxy, logger
+        ).transform(fcp_ast)
+    except VisitError as e:
+        return error(f"Invalid {e.rule} in {filename.name}: {e.orig_exc}")
 
     return Ok(fcp.attempt())
 
